@@ -1,6 +1,786 @@
 package main
 
-import "time"
+import (
+	"bytes"
+	"crypto/sha1"
+	"encoding/json"
+	"fmt"
+	"os"
+	"os/exec"
+	"path/filepath"
+	"regexp"
+	"sort"
+	"strconv"
+	"strings"
+	"time"
 
-func runProperty(prop *PropSpec, tier string, seed int, verbose int, only string, t0 time.Time) int { return 2 }
-func cmdReplay(args []string) int                                                                 { return 2 }
+	"golang.org/x/tools/go/ssa"
+)
+
+// ------------------------------------------------------------------ known findings
+
+type KnownFinding struct {
+	Kind    string // finding | fixed
+	Prop    string
+	Harness string
+	Assert  string
+	Where   map[string]string
+	Desc    string
+	Raw     string
+}
+
+var kfRe = regexp.MustCompile(`^(finding|fixed):\s+property=(\S+)\s+(.*)$`)
+
+func loadKnownFindings() []KnownFinding {
+	b, err := os.ReadFile(filepath.Join(verifDir, "KNOWN_FINDINGS"))
+	if err != nil {
+		return nil
+	}
+	var out []KnownFinding
+	for _, line := range strings.Split(string(b), "\n") {
+		line = strings.TrimSpace(line)
+		if line == "" || strings.HasPrefix(line, "#") {
+			continue
+		}
+		m := kfRe.FindStringSubmatch(line)
+		if m == nil {
+			continue
+		}
+		k := KnownFinding{Kind: m[1], Prop: m[2], Raw: line, Where: map[string]string{}}
+		rest := m[3]
+		if i := strings.Index(rest, " :: "); i >= 0 {
+			k.Desc = rest[i+4:]
+			rest = rest[:i]
+		}
+		// harness=H assert="..." where=a=1,b=2
+		if mm := regexp.MustCompile(`harness=(\S+)`).FindStringSubmatch(rest); mm != nil {
+			k.Harness = mm[1]
+		}
+		if mm := regexp.MustCompile(`assert="([^"]*)"`).FindStringSubmatch(rest); mm != nil {
+			k.Assert = mm[1]
+		}
+		if mm := regexp.MustCompile(`where=(\S+)`).FindStringSubmatch(rest); mm != nil {
+			for _, kv := range strings.Split(mm[1], ",") {
+				if i := strings.Index(kv, "="); i > 0 {
+					k.Where[kv[:i]] = kv[i+1:]
+				}
+			}
+		}
+		out = append(out, k)
+	}
+	return out
+}
+
+func violMsgText(v *Violation) string {
+	// strip "file:line: " prefix
+	msg := v.Msg
+	if v.Kind == "assert" {
+		if i := strings.Index(msg, ": "); i >= 0 {
+			msg = msg[i+2:]
+		}
+	}
+	return msg
+}
+
+func (k *KnownFinding) matches(prop string, v *Violation) bool {
+	if k.Kind != "finding" || k.Prop != prop {
+		return false
+	}
+	if k.Harness != "" && k.Harness != v.Harness {
+		return false
+	}
+	if k.Assert != "" && !strings.Contains(violMsgText(v), k.Assert) {
+		return false
+	}
+	for name, want := range k.Where {
+		if strings.HasPrefix(name, "choice.") {
+			found := false
+			for _, c := range v.Choices {
+				if c == name[7:]+"="+want {
+					found = true
+				}
+			}
+			if !found {
+				return false
+			}
+			continue
+		}
+		got, ok := v.Inputs[name]
+		if !ok {
+			return false
+		}
+		w, err := strconv.ParseInt(want, 0, 64)
+		if err != nil || uint64(w) != got {
+			return false
+		}
+	}
+	return true
+}
+
+// ------------------------------------------------------------------ replay
+
+type ReplayCase struct {
+	Harness string            `json:"harness"`
+	Inputs  map[string]string `json:"inputs"`
+	Params  map[string]int    `json:"params"`
+	Pkg     string            `json:"pkg"`
+	Expect  string            `json:"expect"` // what the engine saw: violation message or "pass"
+	Kind    string            `json:"kind"`
+}
+
+type ReplayFile struct {
+	Property string       `json:"property"`
+	Cases    []ReplayCase `json:"cases"`
+}
+
+func harnessNames(P *Program, pkgShort string) []string {
+	pkg := P.pkgs[pkgPathOf(pkgShort)]
+	var names []string
+	if pkg == nil {
+		return nil
+	}
+	re := regexp.MustCompile(`^H\d\d_\w+$`)
+	for name, m := range pkg.Members {
+		if _, ok := m.(*ssa.Function); ok && re.MatchString(name) {
+			names = append(names, name)
+		}
+	}
+	sort.Strings(names)
+	return names
+}
+
+func harnessNamesFromSource(pkgShort string) []string {
+	dir := filepath.Join(verifDir, "harness", pkgShort)
+	ents, _ := os.ReadDir(dir)
+	re := regexp.MustCompile(`(?m)^func (H\d\d_\w+)\(\)`)
+	var names []string
+	for _, e := range ents {
+		if !strings.HasSuffix(e.Name(), ".go") {
+			continue
+		}
+		b, _ := os.ReadFile(filepath.Join(dir, e.Name()))
+		for _, m := range re.FindAllStringSubmatch(string(b), -1) {
+			names = append(names, m[1])
+		}
+	}
+	sort.Strings(names)
+	return names
+}
+
+// writeReplay materialises a replay directory and returns its path.
+func writeReplay(prop string, pkgShort string, cases []ReplayCase, tag string) (string, error) {
+	h := sha1.New()
+	enc, _ := json.Marshal(cases)
+	h.Write(enc)
+	digest := fmt.Sprintf("%s-%x", tag, h.Sum(nil)[:6])
+	dir := filepath.Join(verifDir, "replays", prop, digest)
+	if err := os.MkdirAll(dir, 0o755); err != nil {
+		return "", err
+	}
+	rf := ReplayFile{Property: prop, Cases: cases}
+	b, _ := json.MarshalIndent(rf, "", " ")
+	if err := os.WriteFile(filepath.Join(dir, "inputs.json"), b, 0o644); err != nil {
+		return "", err
+	}
+	// test driver
+	var tb strings.Builder
+	fmt.Fprintf(&tb, "//go:build verif\n\npackage %s\n\nimport \"testing\"\n\n", pkgShort)
+	fmt.Fprintf(&tb, "var vsymHarnesses = map[string]func(){\n")
+	for _, n := range harnessNamesFromSource(pkgShort) {
+		fmt.Fprintf(&tb, "\t%q: %s,\n", n, n)
+	}
+	fmt.Fprintf(&tb, "}\n\nfunc TestZZReplay(t *testing.T) {\n\tfor i, c := range vsymLoadCases() {\n\t\tfn := vsymHarnesses[c.Harness]\n\t\tif fn == nil {\n\t\t\tt.Fatalf(\"unknown harness %%s\", c.Harness)\n\t\t}\n\t\tvsymRunCase(i, c, fn)\n\t}\n}\n")
+	if err := os.WriteFile(filepath.Join(dir, "zz_verif_replay_test.go"), []byte(tb.String()), 0o644); err != nil {
+		return "", err
+	}
+	native, err := os.ReadFile(filepath.Join(verifDir, "harness", "vsym_native.go.txt"))
+	if err != nil {
+		return "", err
+	}
+	ov := map[string]string{}
+	rdir := harnessDirs[pkgShort]
+	for pkg, d := range harnessDirs {
+		hdir := filepath.Join(verifDir, "harness", pkg)
+		ents, err := os.ReadDir(hdir)
+		if err != nil {
+			continue
+		}
+		n := 0
+		for _, e := range ents {
+			if strings.HasSuffix(e.Name(), ".go") {
+				ov[filepath.Join(repoDir, d, "zz_verif_"+e.Name())] = filepath.Join(hdir, e.Name())
+				n++
+			}
+		}
+		if n > 0 {
+			nf := filepath.Join(dir, "zz_verif_vsym_"+pkg+".go")
+			if err := os.WriteFile(nf, []byte(strings.Replace(string(native), "package PKG", "package "+pkg, 1)), 0o644); err != nil {
+				return "", err
+			}
+			ov[filepath.Join(repoDir, d, "zz_verif_vsym.go")] = nf
+		}
+	}
+	ov[filepath.Join(repoDir, rdir, "zz_verif_replay_test.go")] = filepath.Join(dir, "zz_verif_replay_test.go")
+	ob, _ := json.MarshalIndent(map[string]interface{}{"Replace": ov}, "", " ")
+	if err := os.WriteFile(filepath.Join(dir, "overlay.json"), ob, 0o644); err != nil {
+		return "", err
+	}
+	pkgArg := "."
+	if rdir != "" {
+		pkgArg = "./" + rdir
+	}
+	cmd := fmt.Sprintf("cd /repo && VSYM_INPUTS=%s/inputs.json TERM=xterm go test -tags verif -vet=off -count=1 -timeout 300s -overlay %s/overlay.json -run '^TestZZReplay$' -v %s\n", dir, dir, pkgArg)
+	os.WriteFile(filepath.Join(dir, "cmd.txt"), []byte(cmd), 0o644)
+	return dir, nil
+}
+
+type ReplayOutcome struct {
+	Results map[int]string // case index -> pass | assert-failed | panic | hang | assume-failed | cut | missing
+	Failed  map[int][]string
+	Output  string
+	Err     string
+}
+
+func runReplay(dir string) *ReplayOutcome {
+	out := &ReplayOutcome{Results: map[int]string{}, Failed: map[int][]string{}}
+	b, err := os.ReadFile(filepath.Join(dir, "inputs.json"))
+	if err != nil {
+		out.Err = err.Error()
+		return out
+	}
+	var rf ReplayFile
+	if err := json.Unmarshal(b, &rf); err != nil {
+		out.Err = err.Error()
+		return out
+	}
+	pkgShort := "tcell"
+	if len(rf.Cases) > 0 && rf.Cases[0].Pkg != "" {
+		pkgShort = rf.Cases[0].Pkg
+	}
+	rdir := harnessDirs[pkgShort]
+	pkgArg := "."
+	if rdir != "" {
+		pkgArg = "./" + rdir
+	}
+	// the overlay must reflect the current harness files (paths are absolute and stable)
+	cmd := exec.Command("go", "test", "-tags", "verif", "-vet=off", "-count=1", "-timeout", "300s",
+		"-overlay", filepath.Join(dir, "overlay.json"), "-run", "^TestZZReplay$", "-v", pkgArg)
+	cmd.Dir = repoDir
+	env := goEnv("VSYM_INPUTS="+filepath.Join(dir, "inputs.json"), "TERM=xterm")
+	var clean []string
+	for _, e := range env {
+		if strings.HasPrefix(e, "COLORTERM=") || strings.HasPrefix(e, "TCELL_") || strings.HasPrefix(e, "LC_") ||
+			strings.HasPrefix(e, "LANG=") || strings.HasPrefix(e, "LINES=") || strings.HasPrefix(e, "COLUMNS=") ||
+			strings.HasPrefix(e, "RUNEWIDTH_EASTASIAN=") || strings.HasPrefix(e, "TERM=") {
+			if !strings.HasPrefix(e, "TERM=xterm") {
+				continue
+			}
+		}
+		clean = append(clean, e)
+	}
+	cmd.Env = clean
+	var buf bytes.Buffer
+	cmd.Stdout = &buf
+	cmd.Stderr = &buf
+	err = cmd.Run()
+	out.Output = buf.String()
+	if err != nil {
+		out.Err = err.Error()
+	}
+	reRes := regexp.MustCompile(`(?m)^VSYM-REPLAY-RESULT (\d+) (\S+)`)
+	for _, m := range reRes.FindAllStringSubmatch(out.Output, -1) {
+		i, _ := strconv.Atoi(m[1])
+		out.Results[i] = m[2]
+	}
+	reF := regexp.MustCompile(`(?m)^VSYM-ASSERT-FAILED (\d+) (.*)$`)
+	for _, m := range reF.FindAllStringSubmatch(out.Output, -1) {
+		i, _ := strconv.Atoi(m[1])
+		out.Failed[i] = append(out.Failed[i], m[2])
+	}
+	reM := regexp.MustCompile(`(?m)^VSYM-REPLAY-MISSING-INPUT (\d+) (.*)$`)
+	for _, m := range reM.FindAllStringSubmatch(out.Output, -1) {
+		i, _ := strconv.Atoi(m[1])
+		out.Failed[i] = append(out.Failed[i], "missing input "+m[2])
+	}
+	os.WriteFile(filepath.Join(dir, "output.txt"), buf.Bytes(), 0o644)
+	return out
+}
+
+func cmdReplay(args []string) int {
+	if len(args) < 1 {
+		usage()
+	}
+	dir := args[0]
+	o := runReplay(dir)
+	fmt.Print(o.Output)
+	bad := false
+	for i, r := range o.Results {
+		fmt.Printf("case %d: %s %v\n", i, r, o.Failed[i])
+		if r != "pass" && r != "cut" {
+			bad = true
+		}
+	}
+	if len(o.Results) == 0 {
+		fmt.Println("no replay result (build failure?):", o.Err)
+		return 2
+	}
+	if bad {
+		return 1
+	}
+	return 0
+}
+
+func toReplayCase(spec *HarnessSpec, params map[string]int, inputs map[string]uint64, expect, kind string) ReplayCase {
+	in := make(map[string]string, len(inputs))
+	for k, v := range inputs {
+		in[k] = strconv.FormatUint(v, 10)
+	}
+	return ReplayCase{Harness: spec.Name, Inputs: in, Params: params, Pkg: spec.Pkg, Expect: expect, Kind: kind}
+}
+
+// ------------------------------------------------------------------ the check driver
+
+type Evidence struct {
+	PropertyID  string                 `json:"property_id"`
+	Tier        string                 `json:"tier"`
+	Seed        int                    `json:"seed"`
+	Level       string                 `json:"level"`
+	Coverage    map[string]interface{} `json:"coverage"`
+	Assumptions []string               `json:"assumptions"`
+	WallS       float64                `json:"wall_s"`
+	Violations  int                    `json:"violations"`
+}
+
+func runProperty(prop *PropSpec, tier string, seed int, verbose int, only string, t0 time.Time) int {
+	id := prop.ID
+	exit := 0
+	var inconAll []string
+	// group harnesses by platform
+	byOS := map[string][]*HarnessSpec{}
+	for i := range prop.Harnesses {
+		h := &prop.Harnesses[i]
+		if only != "" && h.Name != only {
+			continue
+		}
+		if h.Tiers == "thorough" && tier != "thorough" {
+			continue
+		}
+		byOS[h.GOOS] = append(byOS[h.GOOS], h)
+	}
+	var allResults []*JobResult
+	var allJobs []Job
+	loadSecs := 0.0
+	totalFuncs, totalInstr := 0, 0
+	var Pmain *Program
+	for goos, specs := range byOS {
+		arch := ""
+		if goos == "js" {
+			arch = "wasm"
+		}
+		lr, err := loadProgram(goos, arch, loadPatterns)
+		if err != nil {
+			fmt.Fprintln(os.Stderr, "load:", err)
+			return 2
+		}
+		loadSecs += lr.LoadSecs
+		if len(lr.Errors) > 0 {
+			fmt.Fprintf(os.Stderr, "type errors loading /repo (GOOS=%q):\n%s\n", goos, strings.Join(lr.Errors, "\n"))
+			inconAll = append(inconAll, "load errors for GOOS="+goos+": "+lr.Errors[0])
+			continue
+		}
+		theProgram = lr.P
+		Pmain = lr.P
+		for _, fn := range ssaAllFunctions(lr.P) {
+			totalFuncs++
+			for _, b := range fn.Blocks {
+				totalInstr += len(b.Instrs)
+			}
+		}
+		ex, err := newExec(lr.P, "z3", 30000)
+		if err != nil {
+			fmt.Fprintln(os.Stderr, err)
+			return 2
+		}
+		rootSet := map[string]bool{}
+		var roots []string
+		for _, h := range specs {
+			pp := pkgPathOf(h.Pkg)
+			if !rootSet[pp] {
+				rootSet[pp] = true
+				roots = append(roots, pp)
+			}
+		}
+		sort.Strings(roots)
+		init, ilog := ex.buildInitialHeap(roots)
+		ex.solver.Close()
+		for _, l := range ilog {
+			if !strings.HasPrefix(l, "lenient:") {
+				inconAll = append(inconAll, "init: "+l)
+			}
+		}
+		var jobs []Job
+		for _, h := range specs {
+			params := tierParams(h, tier)
+			n := 0
+			if h.Split != "" {
+				n = h.SplitN[tier]
+				if n == 0 {
+					n = h.SplitN["quick"]
+				}
+			}
+			if n <= 1 {
+				jobs = append(jobs, Job{Spec: h, Params: params, Label: h.Name})
+				continue
+			}
+			for i := 0; i < n; i++ {
+				p := map[string]int{}
+				for k, v := range params {
+					p[k] = v
+				}
+				p["choice:"+h.Split] = i
+				jobs = append(jobs, Job{Spec: h, Params: p, Label: fmt.Sprintf("%s[%s=%d]", h.Name, h.Split, i)})
+			}
+		}
+		nw := 16
+		if s := os.Getenv("VERIF_WORKERS"); s != "" {
+			nw, _ = strconv.Atoi(s)
+		}
+		results := runWorkers(lr.P, init, jobs, verbose, nw)
+		allResults = append(allResults, results...)
+		allJobs = append(allJobs, jobs...)
+	}
+
+	// ---- aggregate
+	agg := struct {
+		paths, branches, forks, queries, sat, unsat, unknown, errors int
+		solverS                                                      float64
+		instrs                                                       int64
+		byEnd                                                        map[string]int
+		funcs                                                        map[string]int
+	}{byEnd: map[string]int{}, funcs: map[string]int{}}
+	assertAgg := map[string]*AssertSite{}
+	var samples []interface{}
+	var viols []*Violation
+	violJob := map[*Violation]Job{}
+	var passCases []ReplayCase
+	perHarness := map[string]map[string]interface{}{}
+	for i, r := range allResults {
+		if r == nil {
+			continue
+		}
+		agg.paths += r.Paths
+		agg.branches += r.Branches
+		agg.forks += r.Forks
+		agg.instrs += r.Instrs
+		agg.queries += r.Solver.Queries
+		agg.sat += r.Solver.Sat
+		agg.unsat += r.Solver.Unsat
+		agg.unknown += r.Solver.Unknown
+		agg.errors += r.Solver.Errors
+		agg.solverS += r.Solver.Seconds
+		for k, v := range r.PathsByEnd {
+			agg.byEnd[k] += v
+		}
+		for k, v := range r.Functions {
+			agg.funcs[k] += v
+		}
+		for k, a := range r.Asserts {
+			key := r.Harness + " " + k
+			t := assertAgg[key]
+			if t == nil {
+				t = &AssertSite{Msg: a.Msg}
+				assertAgg[key] = t
+			}
+			t.Reached += a.Reached
+			t.Proved += a.Proved
+			t.Trivial += a.Trivial
+			t.Failed += a.Failed
+		}
+		for _, s := range r.Incon {
+			inconAll = append(inconAll, r.Label+": "+s)
+		}
+		for _, v := range r.Violations {
+			viols = append(viols, v)
+			violJob[v] = allJobs[i]
+		}
+		ph := perHarness[r.Harness]
+		if ph == nil {
+			ph = map[string]interface{}{"paths": 0, "queries": 0, "solver_s": 0.0, "wall_s": 0.0, "jobs": 0}
+			perHarness[r.Harness] = ph
+		}
+		ph["paths"] = ph["paths"].(int) + r.Paths
+		ph["queries"] = ph["queries"].(int) + r.Solver.Queries
+		ph["solver_s"] = ph["solver_s"].(float64) + r.Solver.Seconds
+		ph["wall_s"] = ph["wall_s"].(float64) + r.Seconds
+		ph["jobs"] = ph["jobs"].(int) + 1
+		ph["params"] = r.Params
+		for j, s := range r.Samples {
+			if j >= 2 || len(samples) >= 24 {
+				break
+			}
+			samples = append(samples, map[string]interface{}{"harness": r.Label, "end": s.End, "choices": s.Choices, "witness_inputs": s.Inputs, "notes": s.Notes, "path_condition_conjuncts": s.PCLen})
+		}
+		for j, pm := range r.PassModels {
+			if j >= 3 {
+				break
+			}
+			passCases = append(passCases, toReplayCase(allJobs[i].Spec, r.Params, pm.Inputs, "pass", "pass"))
+		}
+	}
+
+	// vacuity: every harness must have at least one path reaching an assertion or ending "done"
+	for _, r := range allResults {
+		if r == nil {
+			continue
+		}
+		reached := 0
+		for _, a := range r.Asserts {
+			reached += a.Reached
+		}
+		if r.PathsByEnd["done"] == 0 && len(r.Violations) == 0 && len(r.Incon) == 0 {
+			inconAll = append(inconAll, r.Label+": vacuous harness (no path completed)")
+		}
+		if reached == 0 && len(r.Violations) == 0 && len(r.Incon) == 0 && !strings.Contains(r.Harness, "_nopanic") {
+			// harnesses that only check panics have no assert sites; they are marked PanicIsBug
+			sp := findSpec(prop, r.Harness)
+			if sp == nil || !(sp.PanicIsBug || sp.BlockedIsBug) {
+				inconAll = append(inconAll, r.Label+": vacuous harness (no assertion reached)")
+			}
+		}
+	}
+
+	// ---- replay violations (deduplicated per harness+message; at most 2 models per site)
+	known := loadKnownFindings()
+	type vgroup struct {
+		key   string
+		viols []*Violation
+	}
+	groups := map[string]*vgroup{}
+	var order []string
+	for _, v := range viols {
+		k := v.Harness + "|" + violMsgText(v)
+		g := groups[k]
+		if g == nil {
+			g = &vgroup{key: k}
+			groups[k] = g
+			order = append(order, k)
+		}
+		g.viols = append(g.viols, v)
+	}
+	sort.Strings(order)
+	violationsReported := 0
+	knownReported := map[string]bool{}
+	reproduced, notReproduced := 0, 0
+	for _, k := range order {
+		g := groups[k]
+		// choose up to 3 representatives: prefer ones not matched by a known finding
+		var reps []*Violation
+		for _, v := range g.viols {
+			matched := false
+			for i := range known {
+				if known[i].matches(id, v) {
+					matched = true
+				}
+			}
+			if !matched {
+				reps = append(reps, v)
+			}
+			if len(reps) >= 2 {
+				break
+			}
+		}
+		if len(reps) == 0 {
+			reps = g.viols[:1]
+		}
+		for _, v := range reps {
+			job := violJob[v]
+			rc := toReplayCase(job.Spec, job.Params, v.Inputs, v.Msg, v.Kind)
+			dir, err := writeReplay(id, job.Spec.Pkg, []ReplayCase{rc}, "viol")
+			if err != nil {
+				inconAll = append(inconAll, "cannot write replay: "+err.Error())
+				continue
+			}
+			o := runReplay(dir)
+			res := o.Results[0]
+			ok := false
+			switch v.Kind {
+			case "assert":
+				ok = res == "assert-failed"
+			case "panic":
+				ok = res == "panic"
+			case "blocked":
+				ok = res == "hang"
+			}
+			if !ok {
+				notReproduced++
+				inconAll = append(inconAll, fmt.Sprintf("counterexample for %s did not reproduce natively (replay result %q; see %s/output.txt): encoding or stub defect", k, res, dir))
+				continue
+			}
+			reproduced++
+			var kf *KnownFinding
+			for i := range known {
+				if known[i].matches(id, v) {
+					kf = &known[i]
+					break
+				}
+			}
+			if kf != nil {
+				if !knownReported[kf.Raw] {
+					knownReported[kf.Raw] = true
+					fmt.Printf("KNOWN-FINDING: property=%s %s (harness %s: %s; replay=%s)\n", id, kf.Desc, v.Harness, violMsgText(v), dir)
+				}
+				continue
+			}
+			violationsReported++
+			fmt.Printf("VIOLATION property=%s replay=%s\n", id, dir)
+			fmt.Printf("  harness %s: %s\n  inputs: %v\n  choices: %v\n", v.Harness, v.Msg, v.Inputs, v.Choices)
+			exit = 1
+		}
+	}
+
+	// ---- translator validation: replay sampled passing paths natively
+	validated := 0
+	if len(passCases) > 0 && os.Getenv("VERIF_NO_PASS_REPLAY") == "" {
+		byPkg := map[string][]ReplayCase{}
+		for _, c := range passCases {
+			byPkg[c.Pkg] = append(byPkg[c.Pkg], c)
+		}
+		for pkg, cases := range byPkg {
+			if len(cases) > 40 {
+				cases = cases[:40]
+			}
+			dir, err := writeReplay(id, pkg, cases, "pass")
+			if err != nil {
+				inconAll = append(inconAll, "cannot write pass replay: "+err.Error())
+				continue
+			}
+			o := runReplay(dir)
+			for i := range cases {
+				r := o.Results[i]
+				if r == "pass" || r == "cut" {
+					validated++
+				} else if skipPassReplay(prop, cases[i].Harness) {
+					// harness depends on engine-only facilities (threads, clock); not comparable natively
+				} else {
+					inconAll = append(inconAll, fmt.Sprintf("passing path of %s does not pass natively (result %q %v; see %s/output.txt): translator defect", cases[i].Harness, r, o.Failed[i], dir))
+				}
+			}
+			if len(o.Results) == 0 {
+				inconAll = append(inconAll, "pass replay produced no results: "+o.Err+" (see "+dir+"/output.txt)")
+			}
+		}
+	}
+
+	if len(inconAll) > 0 && exit == 0 {
+		exit = 2
+	}
+
+	// ---- evidence
+	var fnames []string
+	for k := range agg.funcs {
+		fnames = append(fnames, k)
+	}
+	sort.Strings(fnames)
+	if len(samples) == 0 {
+		samples = append(samples, map[string]interface{}{"note": "no path sample recorded"})
+	}
+	var assertList []map[string]interface{}
+	var akeys []string
+	for k := range assertAgg {
+		akeys = append(akeys, k)
+	}
+	sort.Strings(akeys)
+	for _, k := range akeys {
+		a := assertAgg[k]
+		assertList = append(assertList, map[string]interface{}{"site": k, "paths_reaching": a.Reached, "proved_unsat": a.Proved, "trivially_true": a.Trivial, "failed_sat": a.Failed})
+	}
+	var jobsDesc []string
+	for _, j := range allJobs {
+		jobsDesc = append(jobsDesc, j.Label)
+	}
+	if len(jobsDesc) > 40 {
+		jobsDesc = append(jobsDesc[:40], fmt.Sprintf("... %d more", len(jobsDesc)-40))
+	}
+	cov := map[string]interface{}{
+		"states":                        max1(agg.paths),
+		"transitions":                   max1(agg.branches + agg.forks),
+		"traces_validated_against_impl": validated,
+		"samples":                       samples,
+		"exhaustive":                    false,
+		"explanation": "Bounded symbolic execution of the real code: Go SSA of /repo's working tree (loaded on this run) interpreted over SMT bit-vector/FP terms; " +
+			"states = feasible symbolic paths explored (each stands for all inputs satisfying its path condition), transitions = symbolic branch decisions + forks; " +
+			"every assertion is decided by an SMT query over the full path condition (unsat = holds for all inputs on that path).",
+		"functions_encoded":       fnames,
+		"functions_encoded_count": len(fnames),
+		"ssa_instructions_executed": agg.instrs,
+		"program_functions_loaded":  totalFuncs,
+		"bounds":                  prop.Bounds,
+		"outside_the_claim":       prop.Outside,
+		"per_harness":             perHarness,
+		"jobs":                    jobsDesc,
+		"paths_by_end":            agg.byEnd,
+		"queries_discharged":      map[string]int{"total": agg.queries, "sat": agg.sat, "unsat": agg.unsat, "unknown": agg.unknown, "errors": agg.errors},
+		"solver_seconds":          round3(agg.solverS),
+		"solver":                  "z3 4.8.12 (one incremental process per worker; cvc5 for harnesses that say so)",
+		"assertion_sites":         assertList,
+		"counterexamples_found":   len(viols),
+		"counterexamples_replayed_reproduced": reproduced,
+		"counterexamples_not_reproduced":      notReproduced,
+		"known_findings_reported": len(knownReported),
+		"inconclusive":            inconAll,
+		"load_seconds":            round3(loadSecs),
+	}
+	_ = Pmain
+	ev := Evidence{PropertyID: id, Tier: tier, Seed: seed, Level: "model_checking", Coverage: cov,
+		Assumptions: prop.Assumptions, WallS: round3(time.Since(t0).Seconds()), Violations: violationsReported}
+	eb, _ := json.MarshalIndent(ev, "", " ")
+	os.MkdirAll(filepath.Join(verifDir, "evidence"), 0o755)
+	if err := os.WriteFile(filepath.Join(verifDir, "evidence", id+".json"), eb, 0o644); err != nil {
+		fmt.Fprintln(os.Stderr, "evidence:", err)
+		return 2
+	}
+	fmt.Printf("%s %s: %d paths, %d assertion sites, %d queries (%d unsat, %d sat, %d unknown), solver %.1fs, %d traces validated natively, wall %.1fs\n",
+		id, tier, agg.paths, len(assertAgg), agg.queries, agg.unsat, agg.sat, agg.unknown, agg.solverS, validated, time.Since(t0).Seconds())
+	for _, s := range inconAll {
+		fmt.Printf("INCONCLUSIVE %s: %s\n", id, s)
+	}
+	if exit == 0 {
+		fmt.Printf("PASS property=%s tier=%s\n", id, tier)
+	}
+	return exit
+}
+
+func skipPassReplay(prop *PropSpec, harness string) bool {
+	sp := findSpec(prop, harness)
+	return sp != nil && strings.Contains(sp.Note, "no-native-pass-replay")
+}
+
+func findSpec(prop *PropSpec, name string) *HarnessSpec {
+	for i := range prop.Harnesses {
+		if prop.Harnesses[i].Name == name {
+			return &prop.Harnesses[i]
+		}
+	}
+	return nil
+}
+
+func max1(n int) int {
+	if n < 1 {
+		return 1
+	}
+	return n
+}
+
+func round3(f float64) float64 { return float64(int64(f*1000+0.5)) / 1000 }
+
+func ssaAllFunctions(P *Program) []*ssa.Function {
+	var out []*ssa.Function
+	for _, p := range P.prog.AllPackages() {
+		for _, m := range p.Members {
+			if f, ok := m.(*ssa.Function); ok {
+				out = append(out, f)
+			}
+		}
+	}
+	return out
+}
